@@ -69,3 +69,89 @@ func H_C17_timeoutWhileRequestInFlight() {
 		zzverif.Assert(cancelSent, "C17.timeout_in_flight_still_tells_peer")
 	}
 }
+
+// vC17Start: a fresh service and one of the three ways a negotiation wait begins (local swap-out, local
+// swap-in, reception of a swap-out request).  Returns the swap (nil if the initiation was refused).
+func vC17Start() (*vEnv, *SwapService, *SwapStateMachine, int) {
+	env := newEnv(true, true)
+	w := env.w
+	w.maxFaults = 0
+	env.policy.newSwaps, env.policy.allowed, env.policy.suspicious, env.policy.minMsat = true, true, false, 0
+	svc := NewSwapService(env.services)
+	var sm *SwapStateMachine
+	role := rOutSender
+	switch zzverif.Choice("initiation", 3) {
+	case 0:
+		sm, _ = svc.SwapOut(vPeer, "btc", "1x2x3", "me", zzverif.U64("amount"), zzverif.I64("limitppm"))
+	case 1:
+		role = rInSender
+		sm, _ = svc.SwapIn(vPeer, "btc", "1x2x3", "me", zzverif.U64("amount"), zzverif.I64("limitppm"))
+	default:
+		role = rOutReceiver
+		id := vSwapId("m.id")
+		m := &SwapOutRequestMessage{ProtocolVersion: 7, SwapId: id, Network: vBtcNetwork, Scid: "1x2x3", Amount: zzverif.U64("amount"), Pubkey: zzverif.HexStr("m.pubkey", 33), PremiumLimit: zzverif.I64("m.limit")}
+		svc.OnMessageReceived(vPeer, vHexType(messages.MESSAGETYPE_SWAPOUTREQUEST), vMarshal(m))
+		if a, err := svc.GetActiveSwap(id.String()); err == nil {
+			sm = a
+		}
+	}
+	return env, svc, sm, role
+}
+
+func vIsNegotiationWait(st StateType) bool {
+	return st == State_SwapOutSender_AwaitAgreement || st == State_SwapInSender_AwaitAgreement || st == State_SwapOutReceiver_AwaitFeeInvoicePayment
+}
+
+// H_C17_waitIsOnRecordAndTimerSurvivesRejectedMessages: when a negotiation wait has begun, (a) the stored
+// record names the waiting state - a restart then finds a state that fails on recovery and tells the
+// peer, instead of silently re-entering the wait without a timer - and (b) a message of the peer that the
+// waiting state does not accept changes nothing about the armed timer: it is not stopped, and when it
+// fires the swap is cancelled and the peer is told.
+// Bounds: one initiation, one message (any of agreement / opening_tx_broadcasted / cancel / coop_close,
+// arbitrary content), no injected faults.
+func H_C17_waitIsOnRecordAndTimerSurvivesRejectedMessages() {
+	env, svc, sm, role := vC17Start()
+	w := env.w
+	if sm == nil || !vIsNegotiationWait(sm.Current) {
+		return
+	}
+	zzverif.Reach("c17.waiting")
+	id := sm.SwapId.String()
+	wait := sm.Current
+	rec, ok := env.store.recs[id]
+	zzverif.Assert(ok && rec.Current == wait, "C17.waiting_state_is_on_record")
+	zzverif.Assert(w.timeouts == 1 && w.lastTimeoutCtx != nil, "C17.wait_has_one_timer")
+	sc := &vScenario{env: env, svc: svc, sm: sm, role: role, liquid: false, id: id}
+	kind := zzverif.Choice("kind", 4)
+	var ev EventType
+	switch kind {
+	case stMsgAgreement:
+		if role == rOutSender || role == rOutReceiver {
+			ev = Event_OnFeeInvoiceReceived
+		} else {
+			ev = Event_SwapInSender_OnAgreementReceived
+		}
+	case stMsgOpeningTx:
+		ev = Event_OnTxOpenedMessage
+	case stMsgCancel:
+		ev = Event_OnCancelReceived
+	default:
+		ev = Event_OnCoopCloseReceived
+	}
+	_, listed := sm.States[wait].Events[ev]
+	sc.vSendMsg(kind, vPeer)
+	if !listed {
+		zzverif.Reach("c17.rejected_message")
+		zzverif.Assert(sm.Current == wait, "C17.rejected_message_keeps_waiting")
+		zzverif.Assert(w.lastTimeoutCtx.Err() == nil, "C17.rejected_message_keeps_timer_armed")
+		svc.createTimeoutCallback(id)()
+		cancelSent := false
+		for i := range w.sends {
+			if w.sends[i].msgType == int(messages.MESSAGETYPE_CANCELED) && w.sends[i].peer == vPeer {
+				cancelSent = true
+			}
+		}
+		_, aerr := svc.GetActiveSwap(id)
+		zzverif.Assert(sm.Current == State_SwapCanceled && aerr != nil && cancelSent, "C17.timeout_after_rejected_message_cancels")
+	}
+}
